@@ -249,4 +249,20 @@ PROPS['C06'] = {
     'level_note': 'Trusted: Coq kernel, translator, classtab extractor, view model of NumPy; SciPy order-0 behaviour explored only.',
 }
 
+PROPS['C09'] = {
+    'requires': [], 'corr': corr_multi(corr_framework(60, 1200), corr_classtab()), 'search': 'C09',
+    'trusted_base': CLASSTAB_TRUSTED + ['coq/model/Framework.v is a hand-written model of the scheduling layer, validated '
+                                        'against the recorded draws of the implementation on random trees on every run',
+                                        'entropy analysis is syntactic (ast): it sees random.*, np.random.*, RandomState, '
+                                        'os.urandom / time / uuid / secrets, set iteration and id(); behaviour inside NumPy / '
+                                        'SciPy (BLAS threads etc.) is outside the model'],
+    'assumptions': ['third-party calls are deterministic functions of their arguments'],
+    'level_text': 'Theorems: every function of the package that reads entropy reads it from Python random or a generator '
+                  'seeded from it, never numpy global / OS / clock / set order (table regenerated from the whole package); '
+                  'in the scheduling model a call reads a prefix of the draw stream and a pipeline call consumes at least '
+                  'one draw. Bit-identity across numpy global state, call history and PYTHONHASHSEED worker processes is '
+                  'explored over every class x documented argument and operator trees.',
+    'level_note': 'Trusted: Coq kernel, classtab extractor (validated), hand-written scheduling model (correspondence).',
+}
+
 NOT_CLAIMED = {}
